@@ -252,6 +252,81 @@ theorem unload_me_tells_contacts (c : Ctx) (tn : TName) (t : Topic) (hl : c.w.li
   have := users_of_interest_complete c t "off" (decide ("off" = "on")) (decide ("" = "dis")) n o e hm hn
   simpa [Ctx.putLive] using this
 
+/-! ### going invisible -/
+
+theorem foldl_off {α : Type} (f : Ctx → α → Ctx) (hf : ∀ c x, (f c x).off = c.off) (l : List α) (c : Ctx) :
+    (l.foldl f c).off = c.off := by
+  induction l generalizing c with
+  | nil => rfl
+  | cons x xs ih => rw [List.foldl_cons, ih, hf]
+
+theorem call_off (c : Ctx) (name : String) (eff : World → World) : (c.call name eff).1.off = c.off := by
+  unfold Ctx.call
+  simp only
+  split
+  · rfl
+  · split <;> rfl
+
+theorem call_ok (c : Ctx) (name : String) (eff : World → World) (h : c.failK = 0) : (c.call name eff).2 = true := by
+  unfold Ctx.call
+  simp [h]
+
+theorem presDirect_off (c : Ctx) (t : Topic) (p : PresMsg) : (c.presDirect t p).off = c.off := by
+  unfold Ctx.presDirect
+  apply foldl_off
+  intro c x
+  obtain ⟨sid, uid⟩ := x
+  simp only
+  repeat' split
+  all_goals first | rfl | (unfold Ctx.emit; rfl)
+
+theorem evictMe_off (c : Ctx) (t : Topic) (u : Uid) (skip : Sid) : (c.evictMe t u skip).1.off = c.off := by
+  unfold Ctx.evictMe
+  simp only
+  apply foldl_off
+  intro c x
+  obtain ⟨sid, uid⟩ := x
+  simp only
+  split
+  · unfold Ctx.emit; rfl
+  · rfl
+
+/-- A user who takes presence permission out of the own subscription to `me` becomes invisible: every contact the topic may tell is
+told "offline" together with the command to stop listening (`off+dis`), whatever else the change brings about. -/
+theorem going_invisible_tells_contacts (c : Ctx) (t : Topic) (a : Actor) (ud : PUD) (oldWant oldGiven : Mode)
+    (hold : isPresencer (oldWant &&& oldGiven) = true) (hnew : isPresencer (eff ud) = false)
+    (n : String) (o e : Bool) (hm : (n, o, e) ∈ t.perSubs) (hn : (notifyOnOrSkip n "off" o).isSome = true) :
+    (n, { what := "off", cmd := "dis", src := t.name }) ∈ (c.meModeChanged t a ud oldWant oldGiven).1.off := by
+  have h1 : (n, { what := "off", cmd := "dis", src := t.name }) ∈ (c.presUsersOfInterest t "off" "dis").1.off := by
+    unfold Ctx.presUsersOfInterest
+    have := users_of_interest_complete c t "off" (decide ("off" = "on")) (decide ("dis" = "dis")) n o e hm hn "dis"
+    simpa using this
+  unfold Ctx.meModeChanged
+  simp only [hold, hnew, Bool.not_false, and_self, if_true]
+  split
+  · -- the mode did change: a user without P is not announced; the user's other sessions see the new mode
+    have hh : hearsPres (eff ud) = false := by unfold hearsPres; rw [hnew]; rfl
+    simp only [hh, Bool.false_eq_true, false_and, if_false]
+    rw [presDirect_off]
+    exact h1
+  · exact h1
+
+/-- … and a user who gets presence permission back is announced again: every contact is told "online" with the command to listen
+(`on+en`), asking for an answer -/
+theorem becoming_visible_tells_contacts (c : Ctx) (t : Topic) (a : Actor) (ud : PUD) (oldWant oldGiven : Mode)
+    (hold : hearsPres (oldWant &&& oldGiven) = false) (hnew : hearsPres (eff ud) = true)
+    (hch : oldWant ≠ ud.want ∨ oldGiven ≠ ud.given)
+    (n : String) (o e : Bool) (hm : (n, o, e) ∈ (t.setPud a.uid ud).perSubs) (hn : (notifyOnOrSkip n "on" o).isSome = true)
+    (hp : isPresencer (oldWant &&& oldGiven) = false) :
+    (n, { what := "on", cmd := "en", src := t.name, wantReply := true }) ∈ (c.meModeChanged t a ud oldWant oldGiven).1.off := by
+  unfold Ctx.meModeChanged
+  simp only [hp, Bool.false_eq_true, false_and, if_false, hch, if_true, hnew, hold, Bool.not_false, and_self]
+  rw [presDirect_off]
+  unfold Ctx.presUsersOfInterest
+  have := users_of_interest_complete c (t.setPud a.uid ud) "on" (decide ("on" = "on")) (decide ("en" = "dis")) n o e hm hn "en"
+  have hname : (t.setPud a.uid ud).name = t.name := by unfold Topic.setPud; rfl
+  simpa [hname] using this
+
 /-- the premises are met by a concrete world: two users on `me`, each listing the other as an enabled contact last seen offline -/
 example :
     let tO : Topic := { name := "U1", isMe := true, perSubs := [("U2", false, true)] }
